@@ -361,6 +361,7 @@ def generate(prop, seed, tier):
     if mode == "cond":
         scen["roles"] = S.perm(nf)  # function j sits under template parameter roles[j]
         scen["dict_order"] = S.perm(nf)
+        scen["stub_fixed_first"] = S.chance(0.5)
     return scen
 
 
@@ -391,23 +392,30 @@ def build(scen):
     return objs
 
 
-def _stub_template(n):
+def _stub_template(n, fixed_first=False):
     """A user-defined Distribution whose 'fit' takes its n parameters directly
     from the data handed to it.  It only transports chosen y-values through the
-    real ConditionalDistribution.fit; Distribution is an extensible public ABC."""
+    real ConditionalDistribution.fit; Distribution is an extensible public ABC.
+    With fixed_first the family has one more parameter, fixed, that comes first in
+    its parameter order (like a fixed location in front of a conditional scale)."""
     from virocon.distributions import Distribution
 
     names = [f"p{i}" for i in range(n)]
 
     class StubDist(Distribution):
         def __init__(self):
+            if fixed_first:
+                self.q0 = 7.25
+                self.f_q0 = 7.25
             for nm in names:
                 setattr(self, nm, 1.0)
                 setattr(self, "f_" + nm, None)
 
         @property
         def parameters(self):
-            return {nm: getattr(self, nm) for nm in names}
+            out = {"q0": self.q0} if fixed_first else {}
+            out.update({nm: getattr(self, nm) for nm in names})
+            return out
 
         def cdf(self, x, *a, **k):
             return np.zeros_like(np.asarray(x, dtype=float))
@@ -794,7 +802,7 @@ def execute(prop, scen):
         if scen["mode"] == "cond":
             from virocon.distributions import ConditionalDistribution
 
-            tmpl, names = _stub_template(nf)
+            tmpl, names = _stub_template(nf, bool(scen.get("stub_fixed_first")))
             roles = scen["roles"]
             pdict = {}
             for j in scen["dict_order"]:
